@@ -245,27 +245,68 @@ def returns_with_conds(fn):
 
 
 def single_defs(fn):
-    """{name: value node} for locals of fn bound exactly once, by a plain `name = value` (parameters, loop targets etc. excluded)."""
-    count, val = {}, {}
+    """{name: value node} for the locals of fn that merely name a value: bound exactly once by a plain `name = value`
+    (parameters, loop targets etc. excluded), not a container being filled, never used as an object through the name (attribute or
+    item stores, method calls), and defined from names that are themselves never rebound (so the definition means
+    the same wherever the name is used)."""
+    cached = getattr(fn, "_single_defs", None)
+    if cached is not None:
+        return cached
+    count, val, mutated = {}, {}, set()
     for n in ast.walk(fn):
         if isinstance(n, ast.Name) and isinstance(n.ctx, (ast.Store, ast.Del)):
             count[n.id] = count.get(n.id, 0) + 1
         elif isinstance(n, ast.arg):
-            count[n.arg] = count.get(n.arg, 0) + 2
+            count[n.arg] = count.get(n.arg, 0) + 1
+            mutated.add(n.arg)          # a parameter is not a definition
         elif isinstance(n, (ast.Global, ast.Nonlocal)):
             for x in n.names:
                 count[x] = count.get(x, 0) + 2
+        elif isinstance(n, (ast.ExceptHandler,)) and n.name:
+            count[n.name] = count.get(n.name, 0) + 2
         if isinstance(n, ast.Assign) and len(n.targets) == 1 and isinstance(n.targets[0], ast.Name):
             val[n.targets[0].id] = n.value
+        if isinstance(n, (ast.Attribute, ast.Subscript)) and isinstance(n.ctx, (ast.Store, ast.Del)):
+            base = n.value
+            while isinstance(base, (ast.Attribute, ast.Subscript)):
+                base = base.value
+            if isinstance(base, ast.Name):
+                mutated.add(base.id)
+        if isinstance(n, ast.Call) and isinstance(n.func, ast.Attribute) and isinstance(n.func.value, ast.Name):
+            mutated.add(n.func.value.id)        # the receiver of a method call is an object (it may have identity and state), not just a value
+        if isinstance(n, ast.AugAssign) and isinstance(n.target, ast.Name):
+            mutated.add(n.target.id)
+
     def container(v):     # an accumulator being filled is not a name for a value
-        return isinstance(v, (ast.List, ast.Dict, ast.Set)) or (isinstance(v, ast.Call) and isinstance(v.func, ast.Name) and v.func.id in ("list", "dict", "set", "defaultdict"))
-    return {k: v for k, v in val.items() if count.get(k) == 1 and not container(v)}
+        return isinstance(v, (ast.List, ast.Dict, ast.Set)) or (isinstance(v, ast.Call) and isinstance(v.func, ast.Name) and
+                                                                   (v.func.id == "defaultdict" or (v.func.id in ("list", "dict", "set") and not v.args and not v.keywords)))
+
+    def stable(v):
+        return all(count.get(x.id, 0) <= 1 for x in ast.walk(v) if isinstance(x, ast.Name))
+    out = {k: v for k, v in val.items() if count.get(k) == 1 and k not in mutated and not container(v) and stable(v)}
+    try:
+        fn._single_defs = out
+    except Exception:
+        pass
+    return out
+
+
+def copy_tree(node):
+    """Deep copy of a subtree that does not climb through the loader's _parent links."""
+    import copy
+    memo = {}
+    par = getattr(node, "_parent", None)
+    if par is not None:
+        memo[id(par)] = None
+    return copy.deepcopy(node, memo)
 
 
 def expand(expr, fn, depth=3):
-    """Text of expr with every once-assigned local of fn replaced by its definition: the same text whether or not the
-    code names intermediate values."""
+    """Text of expr with every once-assigned value name of fn (single_defs) replaced by its definition: the same text
+    whether or not the code names intermediate values."""
     defs = single_defs(fn)
+    if not any(isinstance(n, ast.Name) and n.id in defs for n in ast.walk(expr)):
+        return norm(expr)
 
     class Sub(ast.NodeTransformer):
         def __init__(self, d):
@@ -273,25 +314,33 @@ def expand(expr, fn, depth=3):
 
         def visit_Name(self, n):
             if isinstance(n.ctx, ast.Load) and n.id in defs and self.d > 0:
-                import copy
-                return Sub(self.d - 1).visit(copy.deepcopy(defs[n.id]))
+                return Sub(self.d - 1).visit(copy_tree(defs[n.id]))
             return n
-    import copy
-    return norm(Sub(depth).visit(copy.deepcopy(expr)))
+    return norm(Sub(depth).visit(copy_tree(expr)))
+
+
+def facts_of(fi_or_node):
+    node = getattr(fi_or_node, "node", fi_or_node)
+    f = getattr(node, "_facts", None)
+    if f is None:
+        f = node._facts = Facts(node)
+    return f
 
 
 class Facts:
     """Statements and calls of a function as texts that do not depend on how the code names intermediate values or
-    nests its conditions: once-assigned locals are expanded (`expand`), and each text comes with the conditions under
-    which it runs (`conds`, expanded alike).  Rules ask `has(text, when=[...])` instead of matching source text."""
+    nests its conditions: once-assigned value names are expanded (`expand`), and each text comes with the conditions
+    under which it runs (`conds`, expanded alike).  Rules ask `has(text, when=[...])` instead of matching source text.
+    Both the expanded and the plain reading of a statement / condition are accepted by the queries."""
 
     def __init__(self, fn):
         self.fn = fn
-        self.items = []          # (text, conditions (tuple of texts), node)
+        self.items = []          # (expanded text, conditions in both readings (expanded first), node)
+        self.plain = {}          # id(node) -> (plain text, plain conditions, expanded conditions)
         cache = {}
 
         def xc(n):
-            out = []
+            out, raw = [], []
             for c in conds(n, None if _inner_function(n, fn) else fn):
                 if c not in cache:
                     try:
@@ -299,39 +348,105 @@ class Facts:
                     except SyntaxError:
                         cache[c] = c
                 out.append(cache[c])
-            return tuple(out)
+                raw.append(c)
+            return tuple(out), tuple(raw)
+
+        def add(text, plain, n, extra=()):
+            c, raw = xc(n)
+            for e in extra:
+                try:
+                    x = expand(ast.parse(e, mode="eval").body, fn)
+                except SyntaxError:
+                    x = e
+                c, raw = c + (x,), raw + (e,)
+            self.items.append((text, tuple(dict.fromkeys(c + raw)), n))
+            self.plain[id(n)] = (plain, raw, c)
+
+        def split(n, value, make, extra=()):
+            """`x = a if c else b` / `return a if c else b` also count as the two guarded statements."""
+            if isinstance(value, ast.IfExp):
+                split(n, value.body, make, extra + tuple(literals(value.test, True)))
+                split(n, value.orelse, make, extra + tuple(literals(value.test, False)))
+            elif extra:
+                clone = _Split(n)
+                add(make(expand(value, fn)), make(norm(value)), clone, extra)
         for n in ast.walk(fn):
             if n is fn:
                 continue
             if isinstance(n, (ast.For, ast.AsyncFor)):
-                self.items.append((f"for {norm(n.target)} in {expand(n.iter, fn)}", xc(n), n))
+                add(f"for {norm(n.target)} in {expand(n.iter, fn)}", f"for {norm(n.target)} in {norm(n.iter)}", n)
             elif isinstance(n, (ast.With, ast.AsyncWith)):
-                self.items.append(("with " + ", ".join(expand(i.context_expr, fn) + (f" as {norm(i.optional_vars)}" if i.optional_vars is not None else "") for i in n.items), xc(n), n))
+                add("with " + ", ".join(expand(i.context_expr, fn) + (f" as {norm(i.optional_vars)}" if i.optional_vars is not None else "") for i in n.items),
+                    "with " + ", ".join(norm(i.context_expr) + (f" as {norm(i.optional_vars)}" if i.optional_vars is not None else "") for i in n.items), n)
             elif isinstance(n, ast.stmt) and not isinstance(n, (ast.If, ast.While, ast.Try, ast.FunctionDef, ast.AsyncFunctionDef, ast.ClassDef, ast.Match)):
-                self.items.append((expand(n, fn), xc(n), n))
+                add(expand(n, fn), norm(n), n)
+                if isinstance(n, ast.Return) and isinstance(n.value, ast.IfExp):
+                    split(n, n.value, lambda v: f"return {v}")
+                elif isinstance(n, ast.Assign) and isinstance(n.value, ast.IfExp):
+                    tg = " = ".join(norm(t) for t in n.targets)
+                    split(n, n.value, lambda v, tg=tg: f"{tg} = {v}")
             elif isinstance(n, ast.Call):
-                self.items.append((expand(n, fn), xc(n), n))
+                add(expand(n, fn), norm(n), n)
+
+    def _match(self, item, text, when, exactly):
+        t, c, n = item
+        pt, pc, xc = self.plain[id(n)]
+        if text is not None and text != t and text != pt:
+            return False
+        if when is not None and not set(when) <= set(c):
+            return False
+        if exactly is not None and sorted(set(exactly)) not in (sorted(set(xc)), sorted(set(pc))):
+            return False
+        return True
 
     def find(self, text, when=None, exactly=None):
-        out = []
-        for t, c, n in self.items:
-            if t != text:
-                continue
-            if when is not None and not set(when) <= set(c):
-                continue
-            if exactly is not None and sorted(set(c)) != sorted(set(exactly)):
-                continue
-            out.append(n)
-        return out
+        return [it[2] for it in self.items if self._match(it, text, when, exactly)]
 
     def has(self, text, when=None, exactly=None):
         return bool(self.find(text, when, exactly))
 
+    def mentions(self, fragment):
+        return any(fragment in t or fragment in self.plain[id(n)][0] for t, _, n in self.items)
+
+    def bound_to(self, text):
+        """Names assigned (by a plain assignment) from an expression with this (expanded or plain) text."""
+        out = []
+        for t, c, n in self.items:
+            if isinstance(n, ast.Assign) and len(n.targets) == 1 and isinstance(n.targets[0], ast.Name) and f"{n.targets[0].id} = {text}" in (t, self.plain[id(n)][0]):
+                out.append(n.targets[0].id)
+        return out
+
+    def loops(self, node):
+        """Headers (`for <target> in <iter>`, innermost last) of the loops of this function that enclose node."""
+        out = []
+        cur = getattr(node, "_parent", None)
+        while cur is not None and cur is not self.fn:
+            if isinstance(cur, (ast.For, ast.AsyncFor)) and not any(node is x for s in cur.orelse for x in ast.walk(s)):
+                out.append(f"for {norm(cur.target)} in {norm(cur.iter)}")
+            elif isinstance(cur, ast.While):
+                out.append(f"while {norm(cur.test)}")
+            cur = getattr(cur, "_parent", None)
+        return list(reversed(out))
+
     def starting(self, prefix):
-        return [(t, c, n) for t, c, n in self.items if t.startswith(prefix)]
+        """[(text, conditions, node)] of the statements/calls whose expanded or plain text starts with prefix (conditions: both readings merged)."""
+        return [(t, c, n) for t, c, n in self.items if t.startswith(prefix) or self.plain[id(n)][0].startswith(prefix)]
 
     def conds_of(self, text):
-        return [list(c) for t, c, n in self.items if t == text]
+        return [list(c) for t, c, n in self.items if text in (t, self.plain[id(n)][0])]
+
+
+class _Split(ast.stmt):
+    """One branch of a statement whose value is a conditional expression (see Facts): stands where the statement stands."""
+    _fields = ()
+
+    def __init__(self, origin):
+        super().__init__()
+        self.origin = origin
+        self._parent = getattr(origin, "_parent", None)
+        self._ord = getattr(origin, "_ord", 0)
+        self.lineno = getattr(origin, "lineno", 0)
+        self.kind = type(origin)
 
 
 def _inner_function(n, fn):
